@@ -10,6 +10,7 @@ mod batch;
 mod props;
 mod puppet;
 mod rsender;
+mod storew;
 mod cluster;
 mod entropy;
 mod gen;
